@@ -919,10 +919,10 @@ class C17(Property):
         env = case.get("env")
         ex = "None"
         if obs.get("byext") is not None:
-            ex = "(Some (mkExtra %s %s %s))" % (
+            ex = "(Some (mkExtra %s %s %s %s))" % (
                 clist(["(%s, %s)" % (cstr(e), cob(r)) for e, r in sorted(obs["byext"].items())]),
                 clist(["(%s, %s)" % (cstr(e), cob(r)) for e, r in sorted((obs.get("must") or {}).items())]),
-                cob(obs.get("fill")))
+                cob(obs.get("fill")), copt(cob3(obs["envref"]) if obs.get("envref") else None))
         return "CaseLoad %s %s %s %s %s %s %s %s %s %s %s %s" % (
             cfields(case["type"]), cdoc(case["doc"]),
             copt(cdoc(d2) if d2 else None),
